@@ -531,7 +531,7 @@ def sha2_step_update(w, h, pend, n, data, compress=None):
     while len(buf) >= blk:
         h = compress(w, h, buf[:blk])
         buf = buf[blk:]
-    return h, buf, _cadd(n, len(data), 4 * w)
+    return h, buf, _cadd(n, len(data), 2 * w)
 
 
 def sha2_step_final(name, h, pend, n, compress=None):
